@@ -536,11 +536,14 @@ pub struct PrintOpts {
    /// relations that get an earlier declaration WITH a (decoy) initialiser and a final declaration WITHOUT one
    #[serde(default)]
    pub redeclare_noinit: Vec<String>,
+   /// write the default provider out on plain relations (`#[ds(ascent::rel)] relation r(..);`)
+   #[serde(default)]
+   pub explicit_default_ds: bool,
 }
 
 impl PrintOpts {
    pub fn plain(kind: Kind) -> Self {
-      PrintOpts { kind, attrs: vec![], generic: false, include_cut: None, init_rels: vec![], redeclare: vec![], redeclare_noinit: vec![] }
+      PrintOpts { kind, attrs: vec![], generic: false, include_cut: None, init_rels: vec![], redeclare: vec![], redeclare_noinit: vec![], explicit_default_ds: false }
    }
    pub fn has_attr(&self, a: &str) -> bool { self.attrs.iter().any(|x| x == a) }
 }
@@ -552,6 +555,26 @@ pub fn program_items(prog: &Program) -> Vec<String> { program_items_opts(prog, N
 pub fn program_items_opts(prog: &Program, opts: Option<&PrintOpts>) -> Vec<String> {
    let mut items = vec![];
    for r in &prog.rels {
+      let before = items.len();
+      let explicit = opts.map_or(false, |o| o.explicit_default_ds) && r.ds.is_none() && !r.is_lattice;
+      program_items_decl(r, opts, &mut items);
+      if explicit {
+         for it in items[before..].iter_mut() {
+            *it = format!("#[ds(ascent::rel)] {it}");
+         }
+      }
+   }
+   for m in &prog.macros {
+      items.push(p_macro_def(m, prog));
+   }
+   for r in &prog.rules {
+      items.push(p_rule(r, prog));
+   }
+   items
+}
+
+fn program_items_decl(r: &RelDecl, opts: Option<&PrintOpts>, items: &mut Vec<String>) {
+   {
       if let Some(o) = opts {
          let init_expr = |key: &str| -> String {
             if o.kind.is_run() {
@@ -569,7 +592,7 @@ pub fn program_items_opts(prog: &Program, opts: Option<&PrintOpts>) -> Vec<Strin
          if o.init_rels.contains(&r.name) {
             let key = if o.kind.is_run() { format!("in_{}", r.name) } else { r.name.clone() };
             items.push(p_decl_init(r, Some(&init_expr(&key))));
-            continue;
+            return;
          }
          if o.redeclare_noinit.contains(&r.name) {
             // an earlier declaration with an initialiser, then the plain declaration: nothing of the initialiser may survive
@@ -579,13 +602,6 @@ pub fn program_items_opts(prog: &Program, opts: Option<&PrintOpts>) -> Vec<Strin
       }
       items.push(p_decl(r));
    }
-   for m in &prog.macros {
-      items.push(p_macro_def(m, prog));
-   }
-   for r in &prog.rules {
-      items.push(p_rule(r, prog));
-   }
-   items
 }
 
 fn tuple_of(cols: &[Ty], f: impl Fn(usize, Ty) -> String) -> String {
@@ -834,7 +850,7 @@ fn serde_json_lite(opts: &PrintOpts) -> String {
    // PrintOpts only holds strings, booleans and small integers; rendered by hand to keep vcore free of serde_json
    let strs = |v: &Vec<String>| format!("[{}]", v.iter().map(|s| format!("{s:?}")).collect::<Vec<_>>().join(","));
    format!(
-      "{{\"kind\":\"{:?}\",\"attrs\":{},\"generic\":{},\"include_cut\":{},\"init_rels\":{},\"redeclare\":{},\"redeclare_noinit\":{}}}",
+      "{{\"kind\":\"{:?}\",\"attrs\":{},\"generic\":{},\"include_cut\":{},\"init_rels\":{},\"redeclare\":{},\"redeclare_noinit\":{},\"explicit_default_ds\":{}}}",
       opts.kind,
       strs(&opts.attrs),
       opts.generic,
@@ -844,6 +860,7 @@ fn serde_json_lite(opts: &PrintOpts) -> String {
       },
       strs(&opts.init_rels),
       strs(&opts.redeclare),
-      strs(&opts.redeclare_noinit)
+      strs(&opts.redeclare_noinit),
+      opts.explicit_default_ds
    )
 }
